@@ -316,15 +316,11 @@ fn raw_summary(raw: &Value) -> Value {
 
 /// Writes the tree, parses the output independently and projects both sides.
 fn write_and_observe(tree: &ClassFile) -> Result<Value> {
-	let t0 = std::time::Instant::now();
-	let tm = |what: &str| if std::env::var_os("C02_TIMING").is_some() { eprintln!("{what}: {:?}", t0.elapsed()) };
 	let mut expected = duke_to_facts(tree).map_err(|e| anyhow!("projection of the tree: {e}"))?;
-	tm("projected");
 	let mut bytes: Vec<u8> = Vec::new();
 	if let Err(e) = duke::write_class(&mut bytes, tree) {
 		return Ok(json!({"res": "err", "msg": format!("{e:#}").chars().take(300).collect::<String>()}));
 	}
-	tm("written");
 	// debugging aid: C02_DUMP=<dir> keeps the written class files
 	if let Some(dir) = std::env::var_os("C02_DUMP") {
 		static N: std::sync::atomic::AtomicUsize = std::sync::atomic::AtomicUsize::new(0);
@@ -335,13 +331,10 @@ fn write_and_observe(tree: &ClassFile) -> Result<Value> {
 		Ok(p) => p,
 		Err(e) => return Ok(json!({"res": "ok", "parse": "err", "msg": e.to_string(), "size": bytes.len()})),
 	};
-	tm("parsed");
 	let mut facts = parsed.facts;
 	let exp_code = split_code(&mut expected);
 	let out_code = split_code(&mut facts);
-	tm("split");
 	let diffs = diff(&expected, &facts, WRITE_KINDS);
-	tm("diffed");
 	let mut atoms: Vec<Value> = cfkit::duke_diff::atoms(&diffs).into_iter().map(|(p, k)| json!([k, p])).collect();
 	atoms.truncate(40);
 	let detail: Vec<Value> = diffs.iter().take(5).map(|d| json!([d.kind, d.path])).collect();
@@ -384,7 +377,6 @@ fn write_and_observe(tree: &ClassFile) -> Result<Value> {
 		methods.push(json!({"m": m, "nt": insns.len(), "no": oinsns.len(), "len": o.code_length, "T": t_items, "O": o_items,
 			"offs": offs, "tabs": tabs.into_iter().map(|(t, d)| json!([t, d])).collect::<Vec<_>>()}));
 	}
-	tm("methods");
 	Ok(json!({"res": "ok", "parse": "ok", "raw": raw_summary(&parsed.raw), "diffs": atoms, "detail": detail, "methods": methods,
 		"size": bytes.len()}))
 }
@@ -484,18 +476,13 @@ fn layout_class(items: &[Value]) -> Result<(Value, Encoding)> {
 
 fn exec_layout(v: &Value) -> Result<Value> {
 	let items = v["items"].as_array().context("items")?;
-	let t00 = std::time::Instant::now();
 	let (facts, enc) = layout_class(items)?;
-	if std::env::var_os("C02_TIMING").is_some() { eprintln!("facts: {:?}", t00.elapsed()) }
 	let bytes = match assemble(&facts, &enc) {
 		Ok(b) => b,
 		Err(AsmError::Unencodable(m)) => return Ok(json!({"skipped": true, "why": m})),
 		Err(e) => bail!("layout class: {e}"),
 	};
-	if std::env::var_os("C02_TIMING").is_some() { eprintln!("assembled {} bytes {:?}", bytes.len(), t00.elapsed()) }
-	let t0 = std::time::Instant::now();
 	let tree = read(&bytes).context("duke cannot read the layout class")?;
-	if std::env::var_os("C02_TIMING").is_some() { eprintln!("read: {:?}", t0.elapsed()) }
 	write_and_observe(&tree)
 }
 
